@@ -25,6 +25,7 @@ import XrsVerif.Proofs.PolygonizeRegions
                               (injective self-map of a finite set, at most 4·nx·ny states);
   * `hole_start_on_boundary`, `exterior_start_on_boundary`  the states `_scan` starts from are boundary edges
                               (for exteriors: given that the pixel is the first of its region in scan order);
+  * `vertices_on_corners`     every vertex is an integer point of `[0,nx] × [0,ny]`;
   * `ring_closed_rectilinear` every returned ring starts and ends at the start vertex and consecutive
                               vertices share a coordinate;
   * `transform_every_vertex`  the affine transform is applied to every vertex of every ring, nothing else;
@@ -120,6 +121,13 @@ theorem ring_closed_rectilinear (nx ny : Nat) (regs : Nat → Nat) (ij : Nat) (h
       2 ≤ tr.pts.length := by
   obtain ⟨h1, h2, h3, h4⟩ := follow_ring nx ny regs ij hole tr h
   exact ⟨h1, by rw [h2, h3], h2, h4⟩
+
+/-- every vertex of a ring is a pixel corner of the raster: an integer point of `[0,nx] × [0,ny]` -/
+theorem vertices_on_corners (nx ny : Nat) (regs : Nat → Nat) (ij : Nat) (hole : Bool) (tr : Trace)
+    (hstart : Valid (inRegion nx ny regs (regs ij))
+      ⟨(ij % nx : Nat), (ij / nx : Nat), if hole then .W else .E⟩)
+    (h : follow nx ny regs ij hole = some tr) : ∀ p ∈ tr.pts, InBox nx ny p :=
+  follow_inBox nx ny regs ij hole tr hstart h
 
 /-- a supplied affine transform is applied to every vertex of every ring (and to nothing else) -/
 theorem transform_every_vertex {V : Type} (nx ny : Nat) (conn8 : Bool) (close : V → V → Bool)
